@@ -92,6 +92,16 @@ fn vkey_hold_start<'a, const C: usize, const R: usize, T>(layout: &mut Layout<'a
         r == duration,
         final(layout).verif_events@ == old(layout).verif_events@.push(Event::Press(fk_hfd.coord.x, fk_hfd.coord.y)),
 
+// hold-for-duration, re-activation while pending (the `and_modify` closure, an EXPRESSION closure:
+// fragment mode expr-after): the countdown restarts at the stated duration - "until the stated time
+// has passed since its MOST RECENT activation"
+//@ fragment src/kanata/mod.rs fn handle_keystate_changes in `Kanata` expr-after `re:\.and_modify\(\|d\|\s*` as vkey_hold_rearm
+//@@ header
+fn vkey_hold_rearm(d: &mut u16, duration: u16)
+//@@ spec
+    ensures
+        *final(d) == duration,
+
 // on-idle (Kanata::tick_idle_timeout): one pending on-idle action - it fires, through
 // handle_fakekey_action (the function under contract above: the caller is checked against that
 // contract), exactly when kanata has been idle for at least the configured time, and is then
